@@ -337,6 +337,28 @@ def run(facts, rep, tier):
             rep.ob("C05.W5", "filter-consults:%s" % f, f in got, "`%s` is consulted on every accepting path" % f if f in got else
                    "the string filter can accept a value without consulting `%s`: an enum value that violates it stays a variant, so Deserialize, FromStr and TryFrom all accept a string the schema rejects" % f, sv[0].get("sp") or c.fns[sv[0]["fn"]].get("sp"))
 
+    # W7: `type: [T, null]` becomes Option<T> where T is converted from the *same* schema with the type narrowed: every other
+    # keyword (enum, allOf/oneOf/not, $ref, validations) still constrains T
+    from lib import binding_let, Canon
+    n7 = 0
+    for h7 in c.user_fns():
+        for n_, _ in walk(h7["body"]):
+            if n_.get("k") in ("call", "mcall") and (n_.get("fn") or "").endswith("TypeSpace::convert_option"):
+                for a_ in n_.get("args", []):
+                    bl = binding_let(h7, a_)
+                    if bl is None:
+                        continue
+                    for x_, _ in walk(bl.get("init") or {}):
+                        if x_.get("k") == "struct" and x_["path"].endswith("schema::SchemaObject") and any(f_[0] == "instance_type" for f_ in x_["fields"]):
+                            n7 += 1
+                            bt = Canon(c, h7, 3).r(x_.get("base")) if x_.get("base") is not None else ""
+                            okb = re.fullmatch(r"\$&?(schemars::schema::)?SchemaObject", bt) is not None
+                            extra = sorted({f_[0] for f_ in x_["fields"]} - {"metadata", "instance_type", "enum_values"})
+                            rep.ob("C05.W7", "nullable-rewrite-keeps-the-rest:%s" % h7["fn"], okb and not extra,
+                                   "the inner schema is the outer one with the type narrowed (and the null enum value / null default removed)" if okb and not extra else
+                                   "the inner schema of a `[T, null]` type is built from `%s`%s, not from the schema itself: sibling keywords (allOf / oneOf / not / $ref, validations) are dropped and values they forbid are accepted" % (bt[:90] or "nothing", (" overriding %s" % extra) if extra else ""), x_.get("sp"))
+    rep.floor("C05.W7", "rewrites of a nullable type array into Option<T>", n7, 1)
+
     # W6: aliases wrap the referenced type itself
     from lib import Canon
     n6 = 0
